@@ -51,7 +51,7 @@ type Frame struct {
 	callStr string
 	stopAt  *ssa.BasicBlock
 	stopK   func(st *State, fr *Frame, prev *ssa.BasicBlock)
-	names   map[string]nameRef          // source-level names (from DebugRef) -> current value
+	names   map[string]nameRef           // source-level names (from DebugRef) -> current value
 	loops   map[*ssa.BasicBlock]*loopCtx // active loop cut points on this path
 }
 
@@ -61,14 +61,16 @@ type nameRef struct {
 }
 
 type loopCtx struct {
-	li      *loopInfo
-	measure *Term // value of the decreases expression at the head
-	headSt  *State
-	dropped []*Term // quantified facts from before the loop, restored when the loop is left
-	body    map[*ssa.BasicBlock]bool
-	exited  bool
-	outerFC func(ex *Exec, st *State, in ssa.Instruction, a *Term)
-	outerFR func(ex *Exec, st *State, in ssa.Instruction, dst *SliceV, n *Term)
+	li       *loopInfo
+	measure  *Term // value of the decreases expression at the head
+	headSt   *State
+	iterSt   *State // state at the head of the iteration (after havoc, invariant assumed); step clauses
+	iterVars map[string]TV
+	dropped  []*Term // quantified facts from before the loop, restored when the loop is left
+	body     map[*ssa.BasicBlock]bool
+	exited   bool
+	outerFC  func(ex *Exec, st *State, in ssa.Instruction, a *Term)
+	outerFR  func(ex *Exec, st *State, in ssa.Instruction, dst *SliceV, n *Term)
 }
 
 type deferred struct {
@@ -100,33 +102,33 @@ func (fr *Frame) fork() *Frame {
 }
 
 type Exec struct {
-	eng      *Engine
-	root     *ssa.Function
-	rootName string
-	obls     []*Obligation
-	steps    int
-	maxSteps int
-	paths    int
-	inlined  map[string]bool
-	usedCtr  map[string]bool // contracts used at call sites
-	intrUsed map[string]bool
-	trivial  int // safety checks discharged by the simplifier
+	eng          *Engine
+	root         *ssa.Function
+	rootName     string
+	obls         []*Obligation
+	steps        int
+	maxSteps     int
+	paths        int
+	inlined      map[string]bool
+	usedCtr      map[string]bool // contracts used at call sites
+	intrUsed     map[string]bool
+	trivial      int // safety checks discharged by the simplifier
 	trivialNames map[string]string
 	clauseProps  map[string][]string
-	ordinals map[ssa.Instruction]string
-	failed   []string // tool-limit / unsupported reasons
-	inputs   []NamedVal
+	ordinals     map[ssa.Instruction]string
+	failed       []string // tool-limit / unsupported reasons
+	inputs       []NamedVal
 	// per-path loop iteration counters (symbolic forks at a header)
-	maxForks int
-	maxPaths int
-	merges   int
-	noMerge  bool
-	initMode bool
-	initMaps map[int64]bool
+	maxForks   int
+	maxPaths   int
+	merges     int
+	noMerge    bool
+	initMode   bool
+	initMaps   map[int64]bool
 	allowPanic bool
-	entry    *State        // state at entry of the root function (old())
-	rootVars map[string]TV // ghost/let bindings of the root contract
-	deadline time.Time
+	entry      *State        // state at entry of the root function (old())
+	rootVars   map[string]TV // ghost/let bindings of the root contract
+	deadline   time.Time
 }
 
 func (ex *Exec) fail(reason string) {
@@ -1304,7 +1306,7 @@ func divByConst(st *State, x, c *Term, signed bool) (q, r *Term, ok bool) {
 }
 
 func deadlineIn(sec int) time.Time { return time.Now().Add(time.Duration(sec) * time.Second) }
-func bigInt(n int64) *big.Int       { return big.NewInt(n) }
+func bigInt(n int64) *big.Int      { return big.NewInt(n) }
 
 // boundsOf: constant bounds lo <= x <= hi found syntactically among the path assumptions.
 func (st *State) boundsOf(x *Term, signed bool) (lo, hi *big.Int, ok bool) {
